@@ -135,10 +135,10 @@ prop(
     "C12",
     "byte-level reference monitor: IPToAddr / IPToAddrNoMapped / NetAddrToAddrPort results are compared with AddrFrom4/AddrFrom16 of the input bytes (unmapped where stated, zone and uint16 port kept) and wrong-length inputs must be rejected; "
     "for every (IP, mask) the three IPNet conversions must reject a mask that is nil/empty/not a contiguous run of ones, and where they succeed with len(mask)==len(converted address) the prefix's Contains must equal the *net.IPNet's on "
-    "network/last/+-1/every single-bit flip of the base/24 random probes; slices.SortFunc and SortStableFunc with PreferIPv4/6 are compared with the stable partition [preferred family asc][other family asc][invalid]. "
+    "network/last/+-1/every single-bit flip of the base/24 random probes; slices.SortFunc and SortStableFunc with PreferIPv4/6 are compared with the stable partition [preferred family asc][other family asc][invalid]; a -race stage lets 8 goroutines convert and sort their own values at the same time (results against the same references, shared scratch state reported by the race detector). "
     "Non-trivial: a valid-address conversion, a non-canonical mask, a successful subnet conversion, a slice of >=2 addresses; pool cases are distinct by construction",
-    [st("conv", "c12", "TestConv", timeout_q=600, timeout_t=2400), st("sort", "c12", "TestSort", timeout_q=600, timeout_t=2400)],
-    floors=[dict(stage="conv", key="subnet_conversions_ok", min=2_000), dict(stage="conv", key="addr_conversions_ok", min=50), dict(stage="sort", key="sorted_slices", min=100_000), dict(stage="sort", key="sorted_zone_slices", min=10_000)],
+    [st("conv", "c12", "TestConv", timeout_q=600, timeout_t=2400), st("sort", "c12", "TestSort", timeout_q=600, timeout_t=2400), st("concurrent", "c12", "TestConcurrent", race=True, timeout_q=600, timeout_t=2400)],
+    floors=[dict(stage="conv", key="subnet_conversions_ok", min=2_000), dict(stage="conv", key="addr_conversions_ok", min=50), dict(stage="sort", key="sorted_slices", min=100_000), dict(stage="sort", key="sorted_zone_slices", min=10_000), dict(stage="concurrent", key="concurrent_rounds", min=400)],
     assumptions=["for fam=IPv6 the membership clause is judged on genuine IPv6 bases only (net.IPNet has no coherent membership for a 4in6 base with a 16-byte mask)", "netip.Addr.Compare defines 'ascending'"],
 )
 
